@@ -32,7 +32,7 @@ CHECKS["C12"] = dict(
 
 CHECKS["C01"] = dict(
     technique="Hypothesis-generated pipeline programs; stepwise differential oracle against an independent reference interpreter of the documented node semantics (recording transport + return value + sink files)",
-    text=("Generated-input search over node sequences x parameter placements x initial contexts x payloads (12k cases quick, 80k "
+    text=("Generated-input search over node sequences x parameter placements x initial contexts x payloads (16k cases quick, 80k "
           "thorough, in 250-case fresh-interpreter shards). Each case is executed by semantiva and by a reference interpreter "
           "written from the documentation; final data/context, every per-node post-state, the failing node index, the exception "
           "type and sink files must agree. Sampling, not exhaustive: no claim beyond the explored cases."),
@@ -41,7 +41,7 @@ CHECKS["C01"] = dict(
 
 CHECKS["C02"] = dict(
     technique="Hypothesis-generated pipeline programs biased to flow hazards; implication oracle (clean inspection + required keys => no flow failure, classified by reference model and real traceback) and per-node fact oracle against a recording transport and the reference interpreter's parameter log",
-    text=("Generated-input search (9.6k cases quick, 70k thorough): every generated configuration is inspected and validated; accepted "
+    text=("Generated-input search (12.8k cases quick, 70k thorough): every generated configuration is inspected and validated; accepted "
           "ones are executed with exactly the reported required keys and with a superset. Any unresolved/missing/deleted key, unknown "
           "parameter or type-gate failure after a clean inspection is a violation; per-node created/suppressed keys, parameter origins "
           "and unknown-parameter names are compared with the observed run. Sampling; no claim beyond explored cases."),
@@ -50,7 +50,7 @@ CHECKS["C02"] = dict(
 
 CHECKS["C03"] = dict(
     technique="Hypothesis-generated sweep specifications inside surrounding pipelines; differential oracle against an independent reference sweep expander (own linspace/geometric progression, sorted-name product, zip/cycle, eval of vetted expressions), both YAML-block and Python-API construction paths",
-    text=("Generated-input search (8k cases quick, 64k thorough) over sweep specs x wrapped kind x placements of non-swept parameters x "
+    text=("Generated-input search (8k cases quick, 64k thorough) over sweep specs (expression templates include re-association-sensitive and sum-of-products forms) x wrapped kind x placements of non-swept parameters x "
           "surrounding nodes. Element count, order, every element value, the typed collection class, probe result lists with "
           "data pass-through, rejection of unequal lengths, and <var>_values for every variable and kind are compared with the "
           "reference expander. Sampling; no claim beyond explored cases."),
@@ -60,7 +60,7 @@ CHECKS["C03"] = dict(
 CHECKS["C06"] = dict(
     category="fault_enumeration",
     technique="Hypothesis-generated pipelines x injected fault kind x node index x detail level x output mode; stream-grammar, registry-schema and cross-record invariant oracle; differential against the untraced run (exception identity); /proc/self/fd probe",
-    text=("Fault injection by generation (6.4k cases quick, 56k thorough): a pre-built exception object (ValueError, RuntimeError, "
+    text=("Fault injection by generation (9.6k cases quick, 56k thorough): a pre-built exception object (ValueError, RuntimeError, "
           "KeyboardInterrupt, BaseException subclass) is raised at a generated node, or a construction error is planted at a generated "
           "node, on top of the generator's own unresolved-parameter / type-gate / undeclared-write failures. Every emitted line is "
           "schema-validated via the registry; the stream grammar, shared ids, node order, upstream lists, statuses, pipeline_end "
@@ -70,7 +70,7 @@ CHECKS["C06"] = dict(
 
 CHECKS["C07"] = dict(
     technique="Hypothesis-generated pipelines and contexts executed traced in child processes under four host time zones; SER fields compared with the reference interpreter's per-node log and a recording transport; digest-chain and equal-content metamorphic relations; wall-clock bracket oracle for timestamps",
-    text=("Generated-input search (4.8k cases quick, 42k thorough; each TZ in its own interpreter). For every SER: created/updated "
+    text=("Generated-input search (7.2k cases quick, 42k thorough; each TZ in its own interpreter). For every SER: created/updated "
           "keys vs the exact context diff, processor.ref vs the class that ran, every resolved parameter's value and channel vs the "
           "reference log, the four built-in checks vs the stated conditions, digest chains and equal-content digests (also across two "
           "runs), non-negative durations, and every timestamp parsed as RFC 3339 'Z' and bracketed by the harness' own UTC clock."),
@@ -82,7 +82,7 @@ CHECKS["C10"] = dict(
     text=("Generated-input search over histories (3.5k histories quick, 33k thorough): (a) attaching JsonlTraceDriver at any detail "
           "level must not change returned data/context, exception type/text, failing node index, intermediate published states or sink "
           "files; (b) the two traces of the same configuration must be identical after removing run id, timestamps, durations and "
-          "sequence numbers, whatever ran in between and whether or not the Pipeline object is reused."),
+          "sequence numbers, whatever ran in between and whether or not the Pipeline object is reused; (c) a sample of cases is traced again in a brand-new interpreter (no history at all) and compared record by record; non-finite parameters and one-shot iterators are generated variants."),
     note="Trusts the recording transport and the JSON reader; the set of volatile fields is the documented one and nothing else is masked.",
     design="DESIGN.md section 4 C10")
 
@@ -118,7 +118,7 @@ CHECKS["C13"] = dict(
     text=("Crash-point enumeration over real traces (2.4k traces quick -> ~50k (trace, cut) and (trace, order) evaluations; 51k traces "
           "thorough): every prefix of every emitted trace is aggregated and compared with a 30-line reference verdict (status, missing "
           "edge named, missing nodes, no orphans, launch roll-ups); every drawn order of every drawn subset must give the verdict of "
-          "the same set in emission order; finalising twice must change nothing."),
+          "the same set in emission order; finalising twice must change nothing; one long-lived aggregator fed the same prefix incrementally and finalised after every step must agree with a fresh one."),
     note="Trusts the reference verdict function and the reconstruction of directory-mode emission order (sequential single-process writer).",
     design="DESIGN.md section 4 C13")
 
@@ -133,7 +133,7 @@ CHECKS["C14"] = dict(
     design="DESIGN.md section 4 C14")
 
 CHECKS["C15"] = dict(
-    technique="Hypothesis-generated job batches run on real master/worker threads with perturbed scheduling (worker count, switch interval, enqueue timing, failing job position); differential oracle against the direct Pipeline run; quiescence-based (not stopwatch-based) decision of 'never completes'",
+    technique="Hypothesis-generated job batches run on real master/worker threads with perturbed scheduling (worker count, switch interval, enqueue timing, a stall that blocks the enqueuing thread inside enqueue(), failing job position and failure kind); differential oracle against the direct Pipeline run; quiescence-based (not stopwatch-based) decision of 'never completes'",
     text=("Generated-input search over batches (224 batches quick, 1.1k batches of up to 40 jobs thorough): each job has its own prime "
           "factor and payload so loss, duplication and cross-talk are visible; every future must complete exactly once with the direct "
           "run's (data, context) plus job_id, one status publication per job, master alive; a raising job must complete exceptionally. "
@@ -152,7 +152,7 @@ CHECKS["C16"] = dict(
 
 CHECKS["C17"] = dict(
     technique="Hypothesis-generated YAML configurations with a planted invalidity class x CLI flag combinations x supplied/missing context keys x failing run index; oracle from the generator's own knowledge of the class (order-sensitive required keys), observed through exit code, marker/sink files and the trace directory; differential in-process vs real subprocess on a sample",
-    text=("Generated-input search (3.2k CLI invocations quick, 38k thorough). Each case knows which class it is (20 invalidity classes "
+    text=("Generated-input search (4.8k CLI invocations quick, 38k thorough). Each case knows which class it is (21 invalidity classes "
           "or valid) and which flags it passes; rejected / validate / dry cases must leave no marker line, no sink file and no trace "
           "entry and exit with the documented code; executed cases must exit 0 iff every planned run completed, 4 otherwise with no "
           "run started after the failed one."),
